@@ -139,6 +139,55 @@ theorem tsFields_injective (a b : Int) (h : tsFields a = tsFields b) : a = b := 
       Int.fdiv_eq_ediv_of_nonneg _ (by omega), Int.fdiv_eq_ediv_of_nonneg _ (by omega)] at hh hm hs
   omega
 
+/-! ### the fraction -/
+
+theorem takeWhile_all (p : UInt8 → Bool) : ∀ (r : Bytes) (b : UInt8), b ∈ r.takeWhile p → p b = true
+  | [], b, h => by simp at h
+  | x :: r, b, h => by
+      by_cases hx : p x = true
+      · rw [List.takeWhile_cons_of_pos hx] at h
+        rcases List.mem_cons.mp h with rfl | h'
+        · exact hx
+        · exact takeWhile_all p r b h'
+      · rw [List.takeWhile_cons_of_neg hx] at h; simp at h
+
+/-- stripping trailing `0`s and putting them back is the identity -/
+theorem strip_restore (l : Bytes) :
+    (l.reverse.dropWhile (· = 48)).reverse ++ List.replicate (l.length - (l.reverse.dropWhile (· = 48)).length) 48 = l := by
+  have h1 : l.reverse.takeWhile (· = 48) = List.replicate (l.reverse.takeWhile (· = 48)).length 48 := by
+    rw [List.eq_replicate_iff]
+    refine ⟨rfl, fun b hb => ?_⟩
+    have := takeWhile_all _ _ b hb
+    simpa using this
+  have h2 : l.reverse = l.reverse.takeWhile (· = 48) ++ l.reverse.dropWhile (· = 48) := (List.takeWhile_append_dropWhile).symm
+  have h3 : l.length = (l.reverse.takeWhile (· = 48)).length + (l.reverse.dropWhile (· = 48)).length := by
+    have := congrArg List.length h2
+    rw [List.length_append, List.length_reverse] at this
+    exact this
+  have h4 : l = (l.reverse.dropWhile (· = 48)).reverse ++ (l.reverse.takeWhile (· = 48)).reverse := by
+    have := congrArg List.reverse h2
+    rw [List.reverse_reverse, List.reverse_append] at this
+    exact this
+  rw [h1, List.reverse_replicate] at h4
+  have h5 : l.length - (l.reverse.dropWhile (· = 48)).length = (l.reverse.takeWhile (· = 48)).length := by omega
+  rw [h5]
+  exact h4.symm
+
+/-- the fraction reads back: the digits after the point, padded on the right with `0` to nine, denote `f` -/
+theorem frac_reads_back (f : Nat) (h0 : 0 < f) (h : f < 10 ^ 9) :
+    ∃ ds, fracDigits f = 46 :: ds ∧ ds.length ≤ 9 ∧ digitsVal (ds ++ List.replicate (9 - ds.length) 48) = f := by
+  refine ⟨((pad 9 f).reverse.dropWhile (· = 48)).reverse, ?_, ?_, ?_⟩
+  · simp [fracDigits, show f ≠ 0 by omega]
+  · have h2 : (pad 9 f).reverse = (pad 9 f).reverse.takeWhile (· = 48) ++ (pad 9 f).reverse.dropWhile (· = 48) :=
+      (List.takeWhile_append_dropWhile).symm
+    have := congrArg List.length h2
+    rw [List.length_append, List.length_reverse, pad_length] at this
+    rw [List.length_reverse]; omega
+  · have := strip_restore (pad 9 f)
+    rw [pad_length] at this
+    rw [List.length_reverse, this]
+    exact digitsVal_pad 9 f h
+
 /-- the text `fmtTs` writes, as a function of the printed numbers alone -/
 def renderFields : (Int × Nat × Nat) × Nat × Nat × Nat × Nat → Bytes
   | ((y, m, d), hh, mm, ss, frac) =>
